@@ -73,6 +73,7 @@ type Quiescent struct {
 	Model map[string][]rm.Row // committed rows per table
 	Ended []*Txn              // transactions that ended since the previous quiescent point
 	MaxID int32               // all ids ever used are in 1..MaxID
+	IDs   []int32             // if set: exactly the ids ever used (sparse id spaces of concurrent histories)
 }
 
 // History is the result of running a generated workload under the recorder.
